@@ -700,6 +700,8 @@ def check_declaration_order(ctx, rule='R8-bits-run'):
 def check(ctx):
     repo = ctx.repo
     check_declaration_order(ctx)
+    from ..model import check_conf_dict_holds_no_per_class_tables
+    check_conf_dict_holds_no_per_class_tables(ctx, 'R8-bits-run')
     check_descriptions_keep_the_field(ctx)
     from ..model import check_no_class_level_accumulator
     check_no_class_level_accumulator(ctx, 'R8-bits-run', ['Bits'], clause='a')
@@ -711,6 +713,10 @@ def check(ctx):
         check_protocol(ctx, CacheModel(ctx.repo, max_paths=max(ctx.max_paths, 65536)), 'V')
     except Undecided as e:
         ctx.undecided('R10-validate-before-install', ('bisturi/codegen.py', 'CodeGenerator.generate_code'), 'generate_code', str(e), 0)
+    # Round 9: ... and that code finds the field table (shifts and masks of *this* class) through
+    # the packet at call time, not in the namespace of a module that same-named classes share
+    from .c15 import check_module_namespace
+    check_module_namespace(ctx, rule='R8-bits-run')
     ci = repo.cls('Bits')
     _find_run_masks(ci)
     for m in ('_compile', 'init', 'unpack', 'pack'):
